@@ -29,6 +29,11 @@ CLAIMED = {
             "shutdown while idle; close instants are compared with the admissible window derived from observed idle/busy "
             "intervals, handler and socket lifetimes with a 0.1 s promptness bound. Two defects recorded as known findings (F10, F12).",
             "applications return as soon as they see the disconnect; handler lifetimes are observed through a run-time wrapper around TCPServer.run"),
+    "C10": ("5/C10", "Seeded search over WebSocket message sequences (types, sizes around the limit counted in characters/bytes, "
+            "fragmentation inside code points, pings between fragments, permessage-deflate) x carrier (HTTP/1.1 upgrade, HTTP/2 "
+            "extended CONNECT) x recv segmentation on both workers, with own frame builder/parser/inflater; the size-limit "
+            "boundary {limit-1, limit, limit+1} is enumerated for both kinds, carriers and workers. One dependency defect is a known finding (F14).",
+            "own RFC 6455/7692 client code trusted; only valid UTF-8 is sent"),
 }
 
 NOT_APPLICABLE = {
